@@ -147,6 +147,14 @@ func consoleProbe(args []string) {
 	}
 }
 
+// plainZero: a negated zero prints as -0.00; it is the same score as 0.00
+func plainZero(s string) string {
+	if s == "-0.00" {
+		return "0.00"
+	}
+	return s
+}
+
 var pvLine = regexp.MustCompile(`^depth=(\d+) score=(\S+) `)
 var subLine = regexp.MustCompile(`^\s*\d+\. ([^\t]+)\t(\S+)\t`)
 
@@ -267,7 +275,7 @@ func consoleTransparency(ctx context.Context, seed int64, n int, path string) {
 						return nil, "analysis does not complete"
 					}
 					if m := pvLine.FindStringSubmatch(l); m != nil {
-						a["final"] = "depth=" + m[1] + " score=" + m[2]
+						a["final"] = "depth=" + m[1] + " score=" + plainZero(m[2])
 					} else if strings.HasPrefix(l, "bestmove ") {
 						a["best"] = strings.TrimPrefix(l, "bestmove ")
 					} else if strings.HasPrefix(l, "Search, depth=") {
@@ -281,7 +289,7 @@ func consoleTransparency(ctx context.Context, seed int64, n int, path string) {
 					if !ok || m == nil {
 						return nil, "breakdown incomplete: " + l
 					}
-					sub = append(sub, []string{m[1], m[2]})
+					sub = append(sub, []string{m[1], plainZero(m[2])})
 				}
 				a["lines"] = sub
 				res = append(res, a)
